@@ -102,6 +102,9 @@ Definition is_local_maximum (image labels : list (list Z)) (fp : list (list bool
   if (fe0 =? 0) && (fe1 =? 0) then Some result0 else
   (* slice(fe, -fe) with fe = 0 is empty (ValueError); even sizes break the boolean index *)
   if (fe0 =? 0) || (fe1 =? 0) || Z.even (Z.of_nat fh) || Z.even (Z.of_nat fw) then None else
+  (* image = np.ascontiguousarray(image): same values, C order, so image.strides = (W, 1) and
+     image.ravel() is the row-major listing below whatever the caller's memory layout was *)
+  let image := image in
   let BH := H + fe0 * 2 in
   let BW := W + fe1 * 2 in
   (* big_labels = zeros(shape + 2*fe); big_labels[fe0:-fe0, fe1:-fe1] = labels *)
@@ -133,13 +136,27 @@ Definition is_local_maximum (image labels : list (list Z)) (fp : list (list bool
 Definition mask_at (mask : option (list (list bool))) (y x : Z) : bool :=
   match mask with Some m => get2 false m y x | None => true end.
 
-(* one iteration of the double loop over the structure, for cell (i, j) *)
+(* a[lo:hi] on an axis of length n, lo/hi as written in the code: a negative bound counts from
+   the end, everything is clipped to [0, n]; returns (start, length) *)
+Definition pynorm (v n : Z) : Z := if v <? 0 then Z.max 0 (v + n) else Z.min v n.
+Definition pyslice (lo hi n : Z) : Z * Z :=
+  let s := pynorm lo n in (s, Z.max 0 (pynorm hi n - s)).
+
+(* NumPy broadcasting of one axis: lengths must agree or one of them is 1 *)
+Definition bcompat (a b : Z) : bool := (a =? b) || (a =? 1) || (b =? 1).
+Definition bdim (a b : Z) : Z := if a =? 1 then b else a.
+Definition bidx (len k : Z) : Z := if len =? 1 then 0 else k.
+(* a[boolean mask] : every axis of the mask must have the axis' length, or length 0 *)
+Definition maskdim_ok (a m : Z) : bool := (m =? a) || (m =? 0).
+
+(* one iteration of the double loop over the structure, for cell (i, j); None = the ValueError /
+   IndexError NumPy raises when the two shifted slices do not have compatible shapes *)
 Definition rm_step (image : list (list Z)) (big_mask : list (list bool)) (st : list (list bool))
-           (h w : nat) (h0 h1 : Z) (result : list (list bool)) (ij : Z * Z) : list (list bool) :=
+           (h w : nat) (h0 h1 : Z) (result : list (list bool)) (ij : Z * Z) : option (list (list bool)) :=
   let '(i, j) := ij in
   let H := Z.of_nat h in
   let W := Z.of_nat w in
-  if (i =? h0) && (j =? h1) then result else
+  if (i =? h0) && (j =? h1) then Some result else
   if get2 false st i j then
     let off_i := i - h0 in
     let off_j := j - h1 in
@@ -148,19 +165,36 @@ Definition rm_step (image : list (list Z)) (big_mask : list (list bool)) (st : l
     let src_i_min := Z.max 0 (- off_i) in
     let src_i_max := Z.min H (H - off_i) in
     let off_i_min := Z.max 0 off_i in
+    let off_i_max := Z.min H (H + off_i) in
     let src_j_min := Z.max 0 (- off_j) in
     let src_j_max := Z.min W (W - off_j) in
     let off_j_min := Z.max 0 off_j in
-    (* min_mask = image[src slices] < image[off slices] *)
-    let min_mask := tab (Z.to_nat (src_i_max - src_i_min)) (Z.to_nat (src_j_max - src_j_min))
-          (fun y x => get2 0 image (src_i_min + y) (src_j_min + x)
-                      <? get2 0 image (off_i_min + y) (off_j_min + x)) in
+    let off_j_max := Z.min W (W + off_j) in
+    let '(si, sa) := pyslice src_i_min src_i_max H in      (* image[src_i_min:src_i_max, ...] *)
+    let '(sj, sb) := pyslice src_j_min src_j_max W in
+    let '(oi, oa) := pyslice off_i_min off_i_max H in      (* image[off_i_min:off_i_max, ...] *)
+    let '(oj, ob) := pyslice off_j_min off_j_max W in
+    (* min_mask = image[src slices] < image[off slices]  (broadcast) *)
+    if negb (bcompat sa oa && bcompat sb ob) then None else
+    let ma := bdim sa oa in
+    let mb := bdim sb ob in
+    let min_mask := tab (Z.to_nat ma) (Z.to_nat mb)
+          (fun y x => get2 0 image (si + bidx sa y) (sj + bidx sb x)
+                      <? get2 0 image (oi + bidx oa y) (oj + bidx ob x)) in
     (* result[src slices][min_mask] = False *)
-    tab h w (fun y x =>
-      if (src_i_min <=? y) && (y <? src_i_max) && (src_j_min <=? x) && (x <? src_j_max)
-         && get2 false min_mask (y - src_i_min) (x - src_j_min)
-      then false else get2 false result1 y x)
-  else result.
+    if negb (maskdim_ok sa ma && maskdim_ok sb mb) then None else
+    Some (tab h w (fun y x =>
+      if (si <=? y) && (y <? si + sa) && (sj <=? x) && (x <? sj + sb)
+         && get2 false min_mask (y - si) (x - sj)
+      then false else get2 false result1 y x))
+  else Some result.
+
+Fixpoint rm_fold (step : list (list bool) -> Z * Z -> option (list (list bool)))
+         (l : list (Z * Z)) (result : list (list bool)) : option (list (list bool)) :=
+  match l with
+  | [] => Some result
+  | ij :: r => match step result ij with None => None | Some result' => rm_fold step r result' end
+  end.
 
 Definition regional_maximum_ties (image : list (list Z)) (mask : option (list (list bool)))
            (st : list (list bool)) : option (list (list bool)) :=
@@ -170,9 +204,6 @@ Definition regional_maximum_ties (image : list (list Z)) (mask : option (list (l
   let W := Z.of_nat w in
   let h0 := Z.of_nat sh / 2 in                           (* structure_half_shape *)
   let h1 := Z.of_nat sw / 2 in
-  (* an offset larger than the image makes a slice bound negative (NumPy then counts from the
-     end and the two slices differ in shape): outside the modelled scope *)
-  if (H <? h0) || (W <? h1) then None else
   let big_mask := tab (h + sh) (w + sw) (fun y x =>
         if (h0 <=? y) && (y <? h0 + H) && (h1 <=? x) && (x <? h1 + W)
         then mask_at mask (y - h0) (x - h1) else false) in
@@ -183,9 +214,9 @@ Definition regional_maximum_ties (image : list (list Z)) (mask : option (list (l
                  | Some m => tab h w (fun y x => if negb (get2 false m y x) then false
                                                  else get2 false result0 y x)
                  end in
-  Some (fold_left (rm_step image big_mask st h w h0 h1)
-                  (flat_map (fun i => map (fun j => (i, j)) (zrange sw)) (zrange sh))
-                  result1).
+  rm_fold (rm_step image big_mask st h w h0 h1)
+          (flat_map (fun i => map (fun j => (i, j)) (zrange sw)) (zrange sh))
+          result1.
 
 (* ------------------------------------------------------------------ regional_maximum, ties not ok *)
 
@@ -218,42 +249,63 @@ Section NoTies.
     end.
 End NoTies.
 
-(* executable instances: labels by iterated minimum propagation over the 8-neighbourhood
-   followed by renumbering in raster order; the position of the first maximum in raster order *)
+(* executable instances of the library calls, proved correct in Proofs/LocalMaxFlood.v:
+   labels by flooding minimum pixel numbers over the 8-neighbourhood until nothing changes
+   (fuel = the sum of all numbers + 1, which always suffices), then renumbering the
+   representatives 1..count; maximum_position = the first maximum of each label in raster order *)
 Definition nb8 : list (Z * Z) := [(-1,-1); (-1,0); (-1,1); (0,-1); (0,1); (1,-1); (1,0); (1,1)].
 
-Definition prop_step (h w : nat) (s : list (list bool)) (l : list (list Z)) : list (list Z) :=
-  tab h w (fun y x => if get2 false s y x
-     then fold_left (fun m d => let v := get2 0 l (y + fst d) (x + snd d) in
-                                if (0 <? v) && (v <? m) then v else m) nb8 (get2 0 l y x)
-     else 0).
+Definition cells (h w : nat) : list (Z * Z) := flat_map (fun y => map (fun x => (y, x)) (zrange w)) (zrange h).
+
+(* 1 + raster index *)
+Definition pidx (w : nat) (p : Z * Z) : Z := Z.of_nat w * fst p + snd p + 1.
+
+(* min of a pixel's number and the numbers of its neighbours inside the set *)
+Definition nb_min (u : Z -> Z -> bool) (l : Z -> Z -> Z) (y x : Z) : Z :=
+  fold_left (fun m d => if u (y + fst d) (x + snd d) && (l (y + fst d) (x + snd d) <? m)
+                        then l (y + fst d) (x + snd d) else m) nb8 (l y x).
+
+Definition flood_step (h w : nat) (s : list (list bool)) (g : list (list Z)) : list (list Z) :=
+  tab h w (fun y x => if get2 false s y x then nb_min (get2 false s) (get2 0 g) y x else 0).
+
+Fixpoint flood_iter (fuel : nat) (h w : nat) (s : list (list bool)) (g : list (list Z)) : list (list Z) :=
+  match fuel with
+  | O => g
+  | S f => let g' := flood_step h w s g in
+           if list_eq_dec (list_eq_dec Z.eq_dec) g' g then g else flood_iter f h w s g'
+  end.
+
+Definition gsum (h w : nat) (g : list (list Z)) : Z :=
+  fold_right (fun p acc => get2 0 g (fst p) (snd p) + acc) 0 (cells h w).
+
+Fixpoint index_of (v : Z) (l : list Z) : nat :=
+  match l with [] => O | a :: r => if a =? v then O else S (index_of v r) end.
 
 Definition label_inst (s : list (list bool)) : list (list Z) * Z :=
   let '(h, w) := shape2 s in
-  let W := Z.of_nat w in
-  let l0 := tab h w (fun y x => if get2 false s y x then W * y + x + 1 else 0) in
-  let l := fold_left (fun l _ => prop_step h w s l) (seq 0 (h * w)) l0 in
-  (* representatives = cells that kept their own initial number, in raster order *)
-  let reps := filter (fun v => 0 <? v)
-                (concat (tab h w (fun y x => if get2 0 l y x =? W * y + x + 1 then W * y + x + 1 else 0))) in
-  let number v := fold_left (fun acc rk => if fst rk =? v then snd rk else acc)
-                            (combine reps (map (fun k => k + 1) (zrange (length reps)))) 0 in
-  (tab h w (fun y x => let v := get2 0 l y x in if 0 <? v then number v else 0), zlen reps).
+  let u := get2 false s in
+  let g0 := tab h w (fun y x => if u y x then pidx w (y, x) else 0) in
+  let f := flood_iter (S (Z.to_nat (gsum h w g0))) h w s g0 in
+  (* representatives = pixels that kept their own number *)
+  let vals := nodup Z.eq_dec
+                (map (pidx w) (filter (fun p => u (fst p) (snd p) && (get2 0 f (fst p) (snd p) =? pidx w p))
+                                      (cells h w))) in
+  (tab h w (fun y x => if u y x then Z.of_nat (index_of (get2 0 f y x) vals) + 1 else 0), zlen vals).
 
 Definition ro_distance_inst (s : list (list bool)) : list (list Z) :=
   tab (fst (shape2 s)) (snd (shape2 s)) (fun _ _ => 0).
 
+Definition best_step (values labels : list (list Z)) (k : Z) (best : option (Z * Z)) (p : Z * Z) : option (Z * Z) :=
+  if get2 0 labels (fst p) (snd p) =? k then
+    match best with
+    | None => Some p
+    | Some q => if get2 0 values (fst q) (snd q) <? get2 0 values (fst p) (snd p) then Some p else best
+    end
+  else best.
+
 Definition maximum_position_inst (values labels : list (list Z)) (index : list Z) : list (Z * Z) :=
   let '(h, w) := shape2 labels in
-  let cells := flat_map (fun y => map (fun x => (y, x)) (zrange w)) (zrange h) in
-  map (fun k =>
-    match fold_left (fun best p =>
-        if get2 0 labels (fst p) (snd p) =? k then
-          match best with
-          | None => Some p
-          | Some q => if get2 0 values (fst q) (snd q) <? get2 0 values (fst p) (snd p) then Some p else best
-          end
-        else best) cells None with
-    | Some p => p
-    | None => (0, 0)
-    end) index.
+  map (fun k => match fold_left (best_step values labels k) (cells h w) None with
+                | Some p => p
+                | None => (0, 0)
+                end) index.
